@@ -118,7 +118,11 @@ func raceConc(f []string) bool {
 	if !ok {
 		return false
 	}
-	for rep := 0; rep < 2; rep++ {
+	reps := 2
+	if _, nv, _ := u.size(); nv > 300 {
+		reps = 1
+	}
+	for rep := 0; rep < reps; rep++ {
 		runHistory(u, roots, 1, 8)
 	}
 	return true
